@@ -36,6 +36,13 @@ func runC05(c *Ctx) {
 	// sorted through the binary search (C08-H1b: a miss returns the insertion point and 0)
 	c.ruleBinarySearch("B8-container-list-stays-sorted")
 	c.Min("B8-container-list-stays-sorted", 3)
+	// a rule that faults fails: RuleEntity.Execute turns a panic of the rule body into its (named) error
+	// result (C09-R1 for this function); without that a faulting rule counts as a success and whatever the
+	// model makes depend on "nothing before failed" runs all the same
+	if f := c.MustFn("B9-a-faulting-rule-fails", "internal/base", "RuleEntity", "Execute"); f != nil {
+		ok, why := c.panicSafe(f)
+		c.Check("B9-a-faulting-rule-fails", "RuleEntity.Execute", ok, f.Pos(), "%s", why)
+	}
 
 	kind := map[string]string{}
 	var all []string
